@@ -55,9 +55,19 @@ def judge_info(ctx, run, I_vld, y_vld):
     er = float(teneva.erank(Y))
     ctx.check('info-r', info.get('r') == er,
         f'info["r"] = {info.get("r")} but erank(result) = {er}')
-    ev = teneva.accuracy_on_data(Y, I_vld, y_vld)
-    ok = info.get('e_vld') == ev or (np.isfinite(ev) and abs(info.get('e_vld')
-        - ev) <= 1e-12 * abs(ev))
+    # independent of the library: || A[I] - y || / || y || from own dense export
+    if I_vld is None or y_vld is None:
+        ev = -1.
+        ok = info.get('e_vld') == -1
+    else:
+        A = ref.dense_ld(Y)
+        ix = tuple(np.asarray(I_vld).T)
+        num = ref.fro(A[ix] - np.asarray(y_vld, dtype=ref.LD))
+        den = ref.fro(y_vld)
+        ev = num / den if den > 0 else np.inf
+        slack = 1e3 * ref.EPS * ref.fro(ref.absbound(Y)[ix]) / max(den, 1e-300)
+        ok = np.isfinite(ev) and abs(info.get('e_vld') - ev) <= \
+            1e-9 * abs(ev) + slack
     ctx.check('info-e_vld', bool(ok),
         f'info["e_vld"] = {info.get("e_vld")} but the returned tensor has '
         f'validation error {ev}')
@@ -161,6 +171,18 @@ def run_case(case, ctx):
                 f'{name} run: malformed result: {why}'):
             return
         judge_info(ctx, run, I_vld, y_vld)
+
+    # history: the SAME validation array object, refilled with other values,
+    # in a second run (state keyed on object identity would go stale)
+    if y_vld is not None:
+        ybuf = kw['y_vld']
+        ybuf *= 3.0
+        ybuf += 0.5
+        again = crossh.execute(crossh.Run(T), Y0, **kw)
+        if again.error is None and ref.wellformed(again.result, n) is None:
+            judge_info(ctx, again, I_vld, ybuf)
+            ctx.event('validation-buffer-refilled')
+        y_vld = ybuf
 
     # (1) exactness once the working ranks reached rho
     Y = plain.result
